@@ -14,5 +14,7 @@ def run(ctx):
     from ..scen_print import json_framing
     from ..scen_text import text_layout
     json_framing(ctx); text_layout(ctx)        # a failing write is returned as an error by both output processes
+    from ..scen_files import file_sources
+    file_sources(ctx)         # file input is the whole file (nothing consumed before the tokenizer); a failing entry of a directory ends the run with an error
     from ..conform import conformance
     conformance(ctx, ['io'])      # the references the obligations are stated against, compared with jawk::go on concrete runs (validates the oracles; never decides)
